@@ -556,6 +556,9 @@ func genIns(r *sim.Rand, flags uint8, allowWrong bool, straight bool) sim.Op {
 				v = int64(int8(r.Intn(256)))
 			case reflect.Uint16:
 				v = int64(r.Intn(65536))
+				if r.Chance(1, 6) {
+					v = int64(sim.PickInt(r, 0, 1, 0x7F, 0x80, 0xFF, 0x100, 0xFFFF, r.Intn(256))) // direct-page sized and edge values
+				}
 			default:
 				v = int64(r.Intn(1 << 24))
 			}
